@@ -75,9 +75,21 @@ def parseRet (j : Json) : Option PyRet :=
 def parseCap : String → Option Cap
   | "yes" => some .yes | "no" => some .no | "devnull" => some .devnull | _ => none
 
+def parseStreamOp : String → Option StreamOp
+  | "write" => some .write | "print" => some .print | "flush" => some .flush | "isatty" => some .isatty
+  | "fileno" => some .fileno | "writelines" => some .writelines | "buffer" => some .bufferWrite
+  | "encoding" | "errors" | "reconfigure" | "attr" => some .attr
+  | _ => none
+
+/-- `"ops"` (optional, with `"capture"` and `"liveFd"`): the stream operations of the callable's body -/
+def bodyOps (j : Json) : Option (List StreamOp) := (jstrs j "ops").mapM parseStreamOp
+
 def actionRes (j : Json) : Option ARes :=
   match jstr j "op" with
-  | "py" => (parseRet (jobj j "ret")).map (pyExec (jbool j "kwargsRaise"))
+  | "py" =>
+    match parseRet (jobj j "ret"), bodyOps j with
+    | some r, some ops => some (pyExec (jbool j "kwargsRaise") (pyBody (jbool j "capture") (jbool j "liveFd") ops r))
+    | _, _ => none
   | "cmd" =>
     (parseCap (jstr j "cap")).map fun cap =>
       let so : Option Nat := match jobj j "saveOut" with | .null => none | x => some (asNat x)
@@ -185,7 +197,13 @@ def fwdAnswer (evs : List Fwd.Ev) : Json :=
 def handle (j : Json) : Json :=
   match jstr j "op" with
   | "streamfwd" => fwdAnswer (Fwd.flatten none (parseFwdForest (jarr j "forest")))
-  | "py" | "cmd" =>
+  | "py" =>
+    match actionRes j, bodyOps j with
+    | some a, some ops =>
+      let b := bodyRun (jbool j "capture") (jbool j "liveFd") ops
+      (aresJson a).setObjVal! "body" (Json.mkObj [("text", mkArr (b.1.map Json.bool)), ("raised", Json.bool b.2)])
+    | _, _ => Driver.err "bad action"
+  | "cmd" =>
     match actionRes j with
     | some a => aresJson a
     | none => Driver.err "bad action"
